@@ -43,7 +43,7 @@ pub fn show_state(s: &McState) -> String {
             "{}:c{}{{{}}}",
             n,
             if ns.verif_is_crashed() { 1 } else { 0 },
-            procs.join(" ")
+            procs.join("/")
         ));
     }
     let evs: Vec<String> = s
@@ -241,6 +241,12 @@ pub fn mc_cb_op(sys: &mut McSystem, loc: &HashMap<String, String>, ws: &[String]
     }
 }
 
+pub struct Capped;
+
+pub fn cap() -> usize {
+    std::env::var("VH_CAP").ok().and_then(|v| v.parse().ok()).unwrap_or(1500)
+}
+
 pub struct RunOut {
     pub result: String,
     pub evaluated: Vec<String>,
@@ -288,6 +294,10 @@ pub fn make_config(
             }
         }))
         .collect(Box::new(move |s: &McState| {
+            if rec.borrow().len() >= cap() {
+                // scenario too large for the correspondence run: abort it (reported as `capped`)
+                std::panic::panic_any(Capped);
+            }
             rec.borrow_mut().push(show_state(s));
             holds(&coll, &l4, s)
         }))
@@ -395,7 +405,7 @@ pub fn run() {
                 println!("{}", line.trim());
             }
             "end" => println!("end"),
-            "cfg" => {}
+            "cfg" | "refenum" => {}
             "node" => sc.topo.nodes.push(ws[1].to_string()),
             "proc" => sc
                 .topo
@@ -449,8 +459,12 @@ pub fn run() {
                         print_run(k, &out);
                         sc.collected = out.collected_states;
                     }
-                    Err(_) => {
-                        println!("run {} result=panic", k);
+                    Err(e) => {
+                        if e.downcast_ref::<Capped>().is_some() {
+                            println!("run {} result=capped", k);
+                        } else {
+                            println!("run {} result=panic", k);
+                        }
                         sc.dead = true;
                     }
                 }
